@@ -887,23 +887,31 @@ func (c *c04) pyExtras(sigs []c04Sig) {
 		pos       []int
 		kw        []c04KV
 		typeError bool
+		raises    string // the evaluation of the star argument itself fails with this exception: it propagates, nothing is bound
 	}
 	extras := []extra{
-		{"*list", "*[31, 32]", []int{31, 32}, nil, false},
-		{"1,*list", "11, *[31]", []int{11, 31}, nil, false},
-		{"*range", "*range(31, 33)", []int{31, 32}, nil, false},
-		{"*genexp", "*(x for x in (31, 32))", []int{31, 32}, nil, false},
-		{"*iter", "*iter([31])", []int{31}, nil, false},
-		{"*set1", "*{31}", []int{31}, nil, false},
-		{"*int", "*5", nil, nil, true},
-		{"*None", "*None", nil, nil, true},
-		{"**int", "**5", nil, nil, true},
-		{"**None", "**None", nil, nil, true},
-		{"**list", "**[('z', 45)]", nil, nil, true},
-		{"1,**int", "11, **5", nil, nil, true},
-		{"**dict()", "**dict(p1=41, z=45)", nil, []c04KV{{"p1", 41}, {"z", 45}}, false},
-		{"kw,**dict()", "k1=23, **dict(k2=44)", nil, []c04KV{{"k1", 23}, {"k2", 44}}, false},
-		{"kw,**dup()", "k1=23, **dict(k1=43)", nil, nil, true},
+		{"*gen-fails-at-0", "*bad(0)", nil, nil, false, "ValueError"},
+		{"*gen-fails-at-1", "*bad(1)", nil, nil, false, "ValueError"},
+		{"1,*gen-fails-at-1", "11, *bad(1)", nil, nil, false, "ValueError"},
+		{"*gen-fails-at-2,kw", "*bad(2), k1=23", nil, nil, false, "ValueError"},
+		{"*iterclass-fails-at-1", "*Bad(1)", nil, nil, false, "KeyError"},
+		{"*getitem-fails-at-1", "*BadSeq(1)", nil, nil, false, "KeyError"},
+		{"*map-fails-at-1", "*map(boom, [31, 0])", nil, nil, false, "ZeroDivisionError"},
+		{"*list", "*[31, 32]", []int{31, 32}, nil, false, ""},
+		{"1,*list", "11, *[31]", []int{11, 31}, nil, false, ""},
+		{"*range", "*range(31, 33)", []int{31, 32}, nil, false, ""},
+		{"*genexp", "*(x for x in (31, 32))", []int{31, 32}, nil, false, ""},
+		{"*iter", "*iter([31])", []int{31}, nil, false, ""},
+		{"*set1", "*{31}", []int{31}, nil, false, ""},
+		{"*int", "*5", nil, nil, true, ""},
+		{"*None", "*None", nil, nil, true, ""},
+		{"**int", "**5", nil, nil, true, ""},
+		{"**None", "**None", nil, nil, true, ""},
+		{"**list", "**[('z', 45)]", nil, nil, true, ""},
+		{"1,**int", "11, **5", nil, nil, true, ""},
+		{"**dict()", "**dict(p1=41, z=45)", nil, []c04KV{{"p1", 41}, {"z", 45}}, false, ""},
+		{"kw,**dict()", "k1=23, **dict(k2=44)", nil, []c04KV{{"k1", 23}, {"k2", 44}}, false, ""},
+		{"kw,**dup()", "k1=23, **dict(k1=43)", nil, nil, true, ""},
 	}
 	for _, s := range sigs {
 		def := s.def("def")
@@ -918,13 +926,52 @@ func (c *c04) pyExtras(sigs []c04Sig) {
 			if !e.typeError {
 				exp = c04Bind(s, e.pos, e.kw)
 			}
+			if e.raises != "" {
+				exp = excRes(e.raises)
+			}
 			call := "r = f(" + e.args + ")\n"
-			src := def + call
+			d := def
+			if e.raises != "" {
+				d = def + c04BadIterables
+			}
+			src := d + call
 			f := core.Fields{"part": "py-extra", "form": "def", "via": "source", "sig": s.key(), "call": e.key}
-			rc.Guard(f, func() string { return src }, func() { c.report(f, src, "py", exp, c.run(def, call)) })
+			rc.Guard(f, func() string { return src }, func() { c.report(f, src, "py", exp, c.run(d, call)) })
 		}
 	}
 }
+
+// iterables that fail part-way while a call unpacks them
+const c04BadIterables = `def bad(k):
+    for i in range(3):
+        if i == k:
+            raise ValueError
+        yield 31 + i
+class Bad:
+    def __init__(self, k):
+        self.k = k
+        self.i = -1
+    def __iter__(self):
+        return self
+    def __next__(self):
+        self.i += 1
+        if self.i == self.k:
+            raise KeyError
+        if self.i >= 3:
+            raise StopIteration
+        return 31 + self.i
+class BadSeq:
+    def __init__(self, k):
+        self.k = k
+    def __getitem__(self, i):
+        if i == self.k:
+            raise KeyError
+        if i >= 3:
+            raise IndexError
+        return 31 + i
+def boom(v):
+    return 31 // v
+`
 
 // goPart: the four Go signatures x {module function, method through an instance,
 // method through the class with / without an explicit receiver} x call shapes.
